@@ -523,6 +523,8 @@ type vfCFEnv struct {
 	lastH    uint32
 	lastHash chainhash.Hash
 	allCP    map[string][]*chainhash.Hash
+	cpTipH   uint32 // cfCheckptsTipHeight / cfCheckptsTipHash of cfHandler
+	cpTipHsh chainhash.Hash
 	good     []*chainhash.Hash
 }
 
@@ -636,7 +638,7 @@ func (e *vfCFEnv) lineage(c *vfCFChain, p int) []chainhash.Hash {
 	if r0 < 0 || r0 > c.tip() {
 		return c.fhdr
 	}
-	key := fmt.Sprintf("%d/%s/%d", p, c.hash[r0], c.tip())
+	key := fmt.Sprintf("%p/%d/%d", c, p, c.tip())
 	if l, ok := e.lin[key]; ok {
 		return l
 	}
@@ -775,7 +777,12 @@ func (e *vfCFEnv) getBlock(h chainhash.Hash, _ ...QueryOption) (*btcutil.Block, 
 	}
 }
 
-func (e *vfCFEnv) banPeer(addr string, _ banman.Reason) error {
+func (e *vfCFEnv) banPeer(addr string, reason banman.Reason) error {
+	if os.Getenv("VERIF_CFS_DEBUG") != "" {
+		buf := make([]byte, 2048)
+		buf = buf[:runtime.Stack(buf, false)]
+		fmt.Fprintf(os.Stderr, "BAN %s reason=%v\n%s\n", addr, reason, buf)
+	}
 	e.banMu.Lock()
 	defer e.banMu.Unlock()
 	if i, ok := e.addrIx[addr]; ok {
@@ -1168,9 +1175,27 @@ func (e *vfCFEnv) exec(a vfCFAct) (string, error) {
 		}
 		return "ok", nil
 
-	case "GetCheckpts":
+	case "LoopRestart":
+		// head of the checkpoint loop (:602-615)
 		if err := want("loop"); err != nil {
 			return "", err
+		}
+		if bm.isOnBlockHeaderChain(&e.lastHash, e.lastH) {
+			return "", fmt.Errorf("cfHandler would not start over here")
+		}
+		e.allCP = nil
+		e.pc = "top"
+		return "ok", nil
+
+	case "GcSend":
+		if err := want("loop"); err != nil {
+			return "", err
+		}
+		if !bm.isOnBlockHeaderChain(&e.lastHash, e.lastH) {
+			return "", fmt.Errorf("cfHandler would start over here")
+		}
+		if len(e.allCP) > 0 && !bm.isOnBlockHeaderChain(&e.cpTipHsh, e.cpTipH) {
+			e.allCP = nil
 		}
 		if !(minCheckpointHeight(e.allCP) < e.lastH) {
 			return "", fmt.Errorf("cfHandler would not fetch checkpoints here")
@@ -1184,8 +1209,16 @@ func (e *vfCFEnv) exec(a vfCFAct) (string, error) {
 		if ev.kind != "gate" || ev.gate != "cp" {
 			return "", fmt.Errorf("getCheckpts: unexpected event %s/%s", ev.kind, ev.gate)
 		}
-		e.rel <- vfCFRel{resps: e.responses(a.Rs, ev.msg)}
-		ev, err = e.waitEvent()
+		e.gate = ev
+		e.pc = "q_cp"
+		return "q_cp", nil
+
+	case "GetCheckpts":
+		if err := want("q_cp"); err != nil {
+			return "", err
+		}
+		e.rel <- vfCFRel{resps: e.responses(a.Rs, e.gate.msg)}
+		ev, err := e.waitEvent()
 		if err != nil {
 			return "", err
 		}
@@ -1193,7 +1226,15 @@ func (e *vfCFEnv) exec(a vfCFAct) (string, error) {
 			return "", fmt.Errorf("getCheckpts: unexpected event %s", ev.kind)
 		}
 		e.allCP = ev.val[0].(map[string][]*chainhash.Hash)
+		e.cpTipHsh, e.cpTipH = e.lastHash, e.lastH
+		// re-org while the query was waiting for the peers (:648-659)
+		if !bm.isOnBlockHeaderChain(&e.lastHash, e.lastH) {
+			e.allCP = nil
+			e.pc = "top"
+			return "restart", nil
+		}
 		if len(e.allCP) == 0 {
+			e.pc = "loop"
 			return "none", nil // :616 sleep, continue
 		}
 		e.pc = "resolve"
@@ -1203,8 +1244,16 @@ func (e *vfCFEnv) exec(a vfCFAct) (string, error) {
 		if err := want("loop", "resolve"); err != nil {
 			return "", err
 		}
-		if e.pc == "loop" && minCheckpointHeight(e.allCP) < e.lastH {
-			return "", fmt.Errorf("cfHandler would fetch checkpoints first")
+		if e.pc == "loop" {
+			if !bm.isOnBlockHeaderChain(&e.lastHash, e.lastH) {
+				return "", fmt.Errorf("cfHandler would start over here")
+			}
+			if len(e.allCP) > 0 && !bm.isOnBlockHeaderChain(&e.cpTipHsh, e.cpTipH) {
+				return "", fmt.Errorf("cfHandler would drop its cached checkpoints here")
+			}
+			if minCheckpointHeight(e.allCP) < e.lastH {
+				return "", fmt.Errorf("cfHandler would fetch checkpoints first")
+			}
 		}
 		// :629-641
 		checkpoints := make(map[string][]*chainhash.Hash)
@@ -1286,6 +1335,14 @@ func (e *vfCFEnv) exec(a vfCFAct) (string, error) {
 	case "CPStart":
 		if err := want("cp"); err != nil {
 			return "", err
+		}
+		// :692-703 the checkpoints are only good for the chain they
+		// were fetched for
+		if len(e.good) > 0 && !bm.isOnBlockHeaderChain(&e.lastHash, e.lastH) {
+			e.allCP = nil
+			e.good = nil
+			e.pc = "top"
+			return "restart", nil
 		}
 		good := e.good
 		e.reqs = nil
